@@ -23,7 +23,8 @@ CONSTANTS MinProms, MaxProms,   \* number of Prometheus servers explored (0..2)
           PreIds,        \* subset of 0..2: 0 nothing, 1 pre-existing checks { disabled = [...] }, 2 a first rule{} block
                          \*   that enables every check by name (rule { enable = [...] })
           Pairs,         \* BOOLEAN: also pairs of names for the list mechanisms
-          Commands       \* subset of {"lint", "ci"}
+          Commands,      \* subset of {"lint", "ci"}
+          Hists          \* `ci` histories: subset of {"added", "modified", "moved"} (how the rule file came to be on the branch)
 
 PromPool == << [name |-> "prom", tags |-> <<"t1">>], [name |-> "p2", tags |-> <<"t1", "t2">>] >>
 
@@ -58,35 +59,40 @@ CliRegexps == { [form |-> "pre", a |-> "promql/", b |-> ""], [form |-> "pre", a 
                 [form |-> "suf", a |-> "/for", b |-> ""], [form |-> "any", a |-> "", b |-> ""],
                 [form |-> "galt", a |-> "rule/report", b |-> "query/cost"],
                 [form |-> "has", a |-> "e/r", b |-> ""], [form |-> "pre", a |-> "promql/range", b |-> ""],
-                [form |-> "lit", a |-> "for", b |-> ""] }
+                [form |-> "lit", a |-> "for", b |-> ""],
+                [form |-> "suf", a |-> "/series", b |-> ""], [form |-> "has", a |-> "ql/", b |-> ""], [form |-> "pre", a |-> "rule/", b |-> ""],
+                [form |-> "some", a |-> "", b |-> ""], [form |-> "galt", a |-> "alerts/for", b |-> "rule/for"],
+                [form |-> "pre", a |-> "query", b |-> ""], [form |-> "lit", a |-> "promql/rate", b |-> ""],
+                [form |-> "has", a |-> "_", b |-> ""], [form |-> "suf", a |-> "t", b |-> ""] }
 
-VARIABLES pre,     \* chosen PreIds element
+VARIABLES hist,    \* ci history (lint: "added", unused)
+          pre,     \* chosen PreIds element
           phase,   \* "proms" | "layout" | "pre" | "mech" | "eval"
           cfg,     \* scenario configuration (base run)
           layout,  \* layout id (for the case record)
           mech,    \* chosen mechanism
           args,    \* Seq of patterns (names are lit patterns)
           cmd      \* pint command
-vars == <<pre, phase, cfg, layout, mech, args, cmd>>
+vars == <<hist, pre, phase, cfg, layout, mech, args, cmd>>
 
 Cfg0 == [proms |-> <<>>, blocks |-> <<>>, enabled |-> <<>>, disabled |-> <<>>]
 
-Init == pre = 0 /\ phase = "proms" /\ cfg = Cfg0 /\ layout = 0 /\ mech = "none" /\ args = <<>> /\ cmd = "lint"
+Init == hist = "added" /\ pre = 0 /\ phase = "proms" /\ cfg = Cfg0 /\ layout = 0 /\ mech = "none" /\ args = <<>> /\ cmd = "lint"
 
 AddProm ==
   /\ phase = "proms" /\ Len(cfg.proms) < MaxProms
   /\ cfg' = [cfg EXCEPT !.proms = Append(cfg.proms, PromPool[Len(cfg.proms) + 1])]
-  /\ UNCHANGED <<pre, phase, layout, mech, args, cmd>>
+  /\ UNCHANGED <<hist, pre, phase, layout, mech, args, cmd>>
 
-PromsDone == phase = "proms" /\ Len(cfg.proms) >= MinProms /\ phase' = "layout" /\ UNCHANGED <<pre, cfg, layout, mech, args, cmd>>
+PromsDone == phase = "proms" /\ Len(cfg.proms) >= MinProms /\ phase' = "layout" /\ UNCHANGED <<hist, pre, cfg, layout, mech, args, cmd>>
 
 ChooseLayout(n) ==
   /\ phase = "layout"
   /\ cfg' = [cfg EXCEPT !.blocks = Layout(n)] /\ layout' = n /\ phase' = "pre"
-  /\ UNCHANGED <<pre, mech, args, cmd>>
+  /\ UNCHANGED <<hist, pre, mech, args, cmd>>
 
-ChoosePre(n, c) ==
-  /\ phase = "pre"
+ChoosePre(n, c, h) ==
+  /\ phase = "pre" /\ (c = "lint" => h = "added") /\ hist' = h
   /\ cfg' = IF n = 2 THEN [cfg EXCEPT !.blocks = <<EnableAllBlock>> \o cfg.blocks] ELSE [cfg EXCEPT !.disabled = PreDisabledList(n)]
   /\ pre' = n /\ cmd' = c /\ phase' = "mech"
   /\ UNCHANGED <<layout, mech, args>>
@@ -98,7 +104,7 @@ ChooseMech(m, a) ==
   /\ phase = "mech"
   /\ (pre = 2 => m \in {"ruleDisable", "cfgEnabled", "cliEnabled"})
   /\ mech' = m /\ args' = a /\ phase' = "eval"
-  /\ UNCHANGED <<pre, cfg, layout, cmd>>
+  /\ UNCHANGED <<hist, pre, cfg, layout, cmd>>
 
 NamePatterns == {<<Lit(n)>> : n \in NameSet}
 PairPatterns == IF Pairs THEN {<<Lit(n), Lit(m)>> : <<n, m>> \in {p \in NameSet \X NameSet : p[1] # p[2]}} ELSE {}
@@ -106,7 +112,7 @@ PairPatterns == IF Pairs THEN {<<Lit(n), Lit(m)>> : <<n, m>> \in {p \in NameSet 
 Next ==
   \/ AddProm \/ PromsDone
   \/ \E n \in Layouts : ChooseLayout(n)
-  \/ \E n \in PreIds, c \in Commands : ChoosePre(n, c)
+  \/ \E n \in PreIds, c \in Commands, h \in Hists \cup {"added"} : ChoosePre(n, c, h)
   \/ \E m \in ListMechs, a \in NamePatterns \cup PairPatterns : ChooseMech(m, a)
   \/ \E re \in CliRegexps : ChooseMech("cliDisabled", <<re>>)
   \/ \E a \in NamePatterns : /\ ReSrc(a[1]) \notin Range(cfg.disabled)   \* rule{enable=[N]} over checks{disabled=[N]}
@@ -185,7 +191,7 @@ Inv_Registry ==
                  \cup {CfgRows[i].reg : i \in DOMAIN CfgRows}
 
 \* GEN: one case per evaluated input
-CaseRec == [layout |-> layout, pre |-> pre, nproms |-> Len(cfg.proms), cmd |-> cmd, mech |-> mech, args |-> args, argsrc |-> ArgNames(args),
+CaseRec == [layout |-> layout, pre |-> pre, hist |-> hist, nproms |-> Len(cfg.proms), cmd |-> cmd, mech |-> mech, args |-> args, argsrc |-> ArgNames(args),
             bcfg |-> cfg, vcfg |-> VariantCfg(cfg, mech, args), vflags |-> VariantFlags(mech, args)]
 EmitCase == phase # "eval" \/ PrintT(<<"CASE", ToJson(CaseRec)>>)
 =============================================================================
